@@ -3,6 +3,19 @@ From FositeModel Require Import Base.Str Model.Scope Model.Core Model.Flows Proo
 
 Arguments upd : simpl never.
 
+Lemma mint_spec s kd rid k s' :
+  mint s kd rid = (k, s') ->
+  k = next_key s /\ s' = snd (mint s kd rid) /\ st s' = st s /\ next_rid s' = next_rid s /\
+  next_key s' = S (next_key s) /\ owner s' = upd (owner s) (next_key s) (Some (kd, rid)) /\ log s' = log s.
+Proof. unfold mint. intros H. injection H as <- <-. cbn. auto 10. Qed.
+
+Lemma fresh_rid_spec s rid s' :
+  fresh_rid s = (rid, s') ->
+  rid = next_rid s /\ s' = snd (fresh_rid s) /\ st s' = st s /\ next_rid s' = S (next_rid s) /\
+  next_key s' = next_key s /\ owner s' = owner s /\ log s' = log s.
+Proof. unfold fresh_rid. intros H. injection H as <- <-. cbn. auto 10. Qed.
+
+
 (* ------------------------------------------------------------------ revocation primitives and the family predicates *)
 Lemma revoke_access_no_access s X : Inv s -> no_access_rid (revoke_access (st s) X) X.
 Proof.
@@ -98,6 +111,19 @@ Proof.
     intros e [<-|[]]; cbn. rewrite Ho2. subst ka. apply upd_eq.
 Qed.
 
+Lemma Inv_fresh_grant s mk w : Inv s -> (forall rid, r_id (mk rid) = rid) -> Inv (fst (fresh_grant s mk w)).
+Proof.
+  intros I Hmk. unfold fresh_grant.
+  destruct (fresh_rid s) as [rid s1] eqn:E1.
+  destruct (fresh_rid_spec _ _ _ E1) as [Hrid [Hs1 [Hst1 [Hnr1 _]]]].
+  assert (I1 : Inv s1) by (rewrite Hs1; apply Inv_fresh_rid; assumption).
+  apply Inv_grant_tokens; [assumption| | | |]; rewrite Hmk, ?Hst1.
+  - lia.
+  - intros k r H. destruct (inv_access_fresh s _ _ I H). lia.
+  - intros k r H. destruct (inv_refresh_fresh s _ _ _ I H). lia.
+  - intros k r H. destruct (inv_code_fresh s _ _ _ I H). lia.
+Qed.
+
 (* ------------------------------------------------------------------ PKCE touches only its own table *)
 Lemma pkce_token_state cfg s cl key v vh :
   fst (pkce_token cfg s cl key v vh) = s \/
@@ -121,18 +147,6 @@ Qed.
 (* ------------------------------------------------------------------ the flows *)
 Lemma Inv_fail s e : Inv s -> Inv (fst (fail s e)).
 Proof. auto. Qed.
-
-Lemma mint_spec s kd rid k s' :
-  mint s kd rid = (k, s') ->
-  k = next_key s /\ s' = snd (mint s kd rid) /\ st s' = st s /\ next_rid s' = next_rid s /\
-  next_key s' = S (next_key s) /\ owner s' = upd (owner s) (next_key s) (Some (kd, rid)) /\ log s' = log s.
-Proof. unfold mint. intros H. injection H as <- <-. cbn. auto 10. Qed.
-
-Lemma fresh_rid_spec s rid s' :
-  fresh_rid s = (rid, s') ->
-  rid = next_rid s /\ s' = snd (fresh_rid s) /\ st s' = st s /\ next_rid s' = S (next_rid s) /\
-  next_key s' = next_key s /\ owner s' = owner s /\ log s' = log s.
-Proof. unfold fresh_rid. intros H. injection H as <- <-. cbn. auto 10. Qed.
 
 Lemma Inv_authorize cfg s a : Inv s -> Inv (fst (authorize cfg s a)).
 Proof.
@@ -247,6 +261,29 @@ Proof.
   apply Inv_revoke_access. apply Inv_revoke_refresh. assumption.
 Qed.
 
+Ltac flow_head s :=
+  match goal with |- context [match ?a with Some _ => _ | None => fail s _ end] => destruct a; [|try assumption] end.
+
+Lemma Inv_password_flow cfg s auth ok sc au g ga : Inv s -> Inv (fst (password_flow cfg s auth ok sc au g ga)).
+Proof.
+  intros I. unfold password_flow.
+  destruct auth as [c|]; [|assumption]. destruct (clients s c) as [cl|]; [|assumption].
+  repeat match goal with |- context [if ?c then fail s _ else _] => destruct c; [assumption|] end.
+  match goal with |- context [fresh_grant s ?mk ?w] =>
+    pose proof (Inv_fresh_grant s mk w I (fun _ => eq_refl)) as G; destruct (fresh_grant s mk w) as [s2 minted] end.
+  exact G.
+Qed.
+
+Lemma Inv_client_credentials_flow cfg s auth sc au g ga : Inv s -> Inv (fst (client_credentials_flow cfg s auth sc au g ga)).
+Proof.
+  intros I. unfold client_credentials_flow.
+  destruct auth as [c|]; [|assumption]. destruct (clients s c) as [cl|]; [|assumption].
+  repeat match goal with |- context [if ?c then fail s _ else _] => destruct c; [assumption|] end.
+  match goal with |- context [fresh_grant s ?mk ?w] =>
+    pose proof (Inv_fresh_grant s mk w I (fun _ => eq_refl)) as G; destruct (fresh_grant s mk w) as [s2 minted] end.
+  exact G.
+Qed.
+
 Theorem Inv_step cfg s o : Inv s -> Inv (fst (step cfg s o)).
 Proof.
   intros I. destruct o; cbn [step].
@@ -257,6 +294,9 @@ Proof.
   - assumption.
   - now apply Inv_set_now.
   - now apply Inv_set_clients.
+  - now apply Inv_password_flow.
+  - now apply Inv_client_credentials_flow.
+  - assumption.
 Qed.
 
 Theorem Inv_run cfg h : forall s, Inv s -> Inv (run cfg s h).
